@@ -40,8 +40,8 @@ variable (hstep : ∀ q c o q' c', step q c = (o, q', c') → o ≠ .fuel → c'
 include hstep in
 /-- the draining loop of `unionQuery` over a `Select` that returns `t.Current()` as it found it
 returns it as it found it -/
-theorem collectU_context (key : Ref → UInt64) : ∀ (f : Nat) (q : σ) (c : Ref) (l : List Ref) (m : List UInt64)
-    (l' : List Ref) (m' : List UInt64) (q' : σ) (c' : Ref),
+theorem collectU_context (key : Ref → String) : ∀ (f : Nat) (q : σ) (c : Ref) (l : List Ref) (m : List String)
+    (l' : List Ref) (m' : List String) (q' : σ) (c' : Ref),
     collectU step key f q c l m = some (l', m', q', c') → c' = c
   | 0, _, _, _, _, _, _, _, _, h => by simp [collectU] at h
   | f+1, q, c, l, m, l', m', q', c', h => by
